@@ -2,7 +2,7 @@
    Property theorems only: each is closed by [exact <lemma>] and followed by
    [Print Assumptions].  Model: Model/C10.v  Lemmas: Proofs/C10.v *)
 From Coq Require Import List NArith Bool.
-From GQ Require Import Lib.Key Lib.SMap Generated.C10Params Model.C10 Proofs.C10.
+From GQ Require Import Lib.Key Lib.SMap Generated.C10Params Model.C10 Model.C10_Undo Proofs.C10 Proofs.C10_Undo.
 Import ListNotations.
 Local Open Scope N_scope.
 
@@ -281,3 +281,77 @@ Example enc_dec_nonvacuous :
   /\ dec_lk (enc_lk (mkLk 5000 8 1 [58;214])) = mkLk 5000 8 1 []   (* a 2-byte "delegate" is not 58 bytes *)
   /\ dec_lk (enc_lk (mkLk 5000 8 1 (repeat 9 20))) = mkLk 5000 8 1 (repeat 9 20).
 Proof. vm_compute. repeat split. Qed.
+
+(* ================= Extension round: the stored undo records (Model/C10_Undo.v) ================= *)
+
+(* The rollback reads the 'deleted coinbase lockups' record of a block only through the FIRST
+   image per key: any record list with the same first images gives the same state (in ANY state). *)
+Theorem lockup_undo_record_read_through_first_image : forall {L} (d : db L) (e : effect L) l',
+  db_ok d -> (forall k, first_rec k l' = first_rec k (e_lk_deleted e)) ->
+  rollback d (with_lk_deleted e l') = rollback d e.
+Proof. intros L. exact (@rollback_lk_record_ext L). Qed.
+Print Assumptions lockup_undo_record_read_through_first_image.
+
+(* ... so a writer that keeps one entry per key, the one of the FIRST modification, is harmless *)
+Theorem lockup_undo_record_dedup_keep_first_harmless : forall {L} (d : db L) (e : effect L),
+  db_ok d -> rollback d (with_lk_deleted e (dedup_first (e_lk_deleted e))) = rollback d e.
+Proof. intros L. exact (@rollback_dedup_first L). Qed.
+Print Assumptions lockup_undo_record_dedup_keep_first_harmless.
+
+(* ... and nothing less will do: a record whose first image of a (not created) key differs restores
+   that other image. *)
+Theorem lockup_undo_record_first_image_needed : forall {L} (d : db L) (e : effect L) l' k a b,
+  db_ok d -> ~ In k (e_lk_created e) ->
+  first_rec k l' = Some a -> first_rec k (e_lk_deleted e) = Some b -> a <> b ->
+  get k (lockups (rollback d (with_lk_deleted e l'))) = Some a /\
+  get k (lockups (rollback d e)) = Some b /\
+  rollback d (with_lk_deleted e l') <> rollback d e.
+Proof. intros L. exact (@rollback_lk_record_first_image_needed L). Qed.
+Print Assumptions lockup_undo_record_first_image_needed.
+
+(* 'One entry per key, value of the LAST modification' (a tranche topped up twice in one block):
+   the block is well formed, the faithful rollback and the keep-first writer are exact, the
+   keep-last writer leaves the intermediate balance. *)
+Theorem lockup_undo_record_dedup_keep_last_refuted :
+  exists (d : db val) (e : effect val),
+    db_ok d /\ wf_effect d e /\ rollback (apply d e) e = d /\
+    rollback (apply d e) (with_lk_deleted e (dedup_first (e_lk_deleted e))) = d /\
+    rollback (apply d e) (with_lk_deleted e (dedup_last (e_lk_deleted e))) <> d.
+Proof.
+  exists dd_db, dd_eff.
+  destruct dedup_last_refuted_lemma as (A & B & _ & C & D & _ & _ & E).
+  exact (conj A (conj B (conj C (conj D E)))).
+Qed.
+Print Assumptions lockup_undo_record_dedup_keep_last_refuted.
+
+(* The spent / trimmed record must carry the COMPLETE previous output: with an encoder f of the
+   undo image, the rollback restores f v for every pre-block output the block spent or trimmed;
+   if f changes one of them (drops the lock height, say) the rollback is not exact. *)
+Theorem spent_undo_image_restored_as_stored : forall {L} (d : db L) (e : effect L) f k v,
+  db_ok d -> wf_effect d e ->
+  In (k, v) (e_spent e ++ e_trimmed e) -> ~ In k (created_keys e) ->
+  get k (utxo (rollback (apply d e) (map_spent f e))) = Some (f v) /\ get k (utxo d) = Some v.
+Proof. intros L. exact (@lossy_spent_image_restores_image L). Qed.
+Print Assumptions spent_undo_image_restored_as_stored.
+
+Theorem lossy_spent_undo_image_not_exact : forall {L} (d : db L) (e : effect L) f k v,
+  db_ok d -> wf_effect d e ->
+  In (k, v) (e_spent e ++ e_trimmed e) -> ~ In k (created_keys e) -> f v <> v ->
+  rollback (apply d e) (map_spent f e) <> d.
+Proof. intros L. exact (@lossy_spent_image_not_exact L). Qed.
+Print Assumptions lossy_spent_undo_image_not_exact.
+
+Example undo_records_nonvacuous :
+  (* double top-up 150 -> 157 -> 166: keep-last leaves 157 *)
+  lockups (rollback (apply dd_db dd_eff) (with_lk_deleted dd_eff (dedup_last (e_lk_deleted dd_eff))))
+    = [(dd_key, [157;3])]
+  (* an encoder dropping the last byte (lock height) of a spent output *)
+  /\ db_ok lo_db /\ wf_effect lo_db lo_eff
+  /\ In ([1], [12;7;2]) (e_spent lo_eff ++ e_trimmed lo_eff) /\ ~ In [1] (created_keys lo_eff)
+  /\ drop_lock [12;7;2] <> [12;7;2]
+  /\ utxo (rollback (apply lo_db lo_eff) (map_spent drop_lock lo_eff)) = [([1], [12;7]); ([2], [8;7])].
+Proof.
+  destruct dedup_last_refuted_lemma as (_ & _ & _ & _ & _ & _ & X & _).
+  destruct lossy_nonvacuous_lemma as (A & B & C & D & E & _ & F).
+  exact (conj X (conj A (conj B (conj C (conj D (conj E F)))))).
+Qed.
